@@ -88,6 +88,7 @@ impl Check for C03 {
                 c03_case(ctx, &body, &empty, &data, &[], 1);
                 c03_case(ctx, &empty, &empty, &[], &data, 1);
                 unencodable_header_case(ctx, "Sig_structure", &data, &data);
+                both_ivs_case(ctx, "Sig_structure", &data, &data);
             }
         }
     }
